@@ -95,7 +95,7 @@ func vC13Session(c vSx) (res vC13Result) {
 	var W, R *Conn
 	setupW := func(conn *Conn) {
 		W = conn
-		W.SetWriteDeadline(time.Now().Add(6 * time.Second))
+		W.SetWriteDeadline(time.Now().Add(90 * time.Second))
 		if W.newCompressionWriter == nil {
 			return
 		}
@@ -342,7 +342,7 @@ func vC13Session(c vSx) (res vC13Result) {
 			setupW(hc)
 			runOps(0, early)
 		} else {
-			hc.SetWriteDeadline(time.Now().Add(6 * time.Second))
+			hc.SetWriteDeadline(time.Now().Add(90 * time.Second))
 			for _, g := range greet {
 				hc.WriteMessage(TextMessage, g)
 			}
@@ -355,7 +355,7 @@ func vC13Session(c vSx) (res vC13Result) {
 	if err != nil {
 		select {
 		case <-vC13ConnCh:
-		case <-time.After(2 * time.Second):
+		case <-time.After(20 * time.Second):
 		}
 		bad("handshake", fmt.Sprintf("Dial failed: %v", err))
 		res.c, res.obs = c, vL(vZ(1), vZ(50))
@@ -443,6 +443,10 @@ func vC13Session(c vSx) (res vC13Result) {
 			// make sure the rest of the wire is recorded
 			R.UnderlyingConn().SetReadDeadline(time.Now().Add(300 * time.Millisecond))
 			io.Copy(ioutil.Discard, R.UnderlyingConn())
+			if readErr != io.EOF {
+				// the peer gave up: do not let the writer sit in a blocked Write until its deadline
+				R.UnderlyingConn().Close()
+			}
 		}
 		close(done)
 	}()
@@ -486,8 +490,8 @@ func vC13Session(c vSx) (res vC13Result) {
 	}
 	select {
 	case <-done:
-	case <-time.After(6 * time.Second):
-		bad("peer-read", "peer did not finish reading within 6 s")
+	case <-time.After(60 * time.Second):
+		bad("peer-read", "peer did not finish reading within 60 s")
 		W.UnderlyingConn().Close()
 		R.UnderlyingConn().Close()
 		<-done
@@ -495,7 +499,7 @@ func vC13Session(c vSx) (res vC13Result) {
 
 	select {
 	case <-wdone:
-	case <-time.After(1 * time.Second):
+	case <-time.After(20 * time.Second):
 		W.UnderlyingConn().Close()
 		R.UnderlyingConn().Close()
 		<-wdone
